@@ -46,7 +46,7 @@ def jobs(tier):
             if not mask:
                 fx["o0"] = 0
             out.extend(tjobs(f"{H}:c14_pipeline", t, tier, fixed=fx, extra_params=ep, extra_pre=pre, timeout=400 if q else 1500,
-                             shrink=(window(t, tier, 1, wide=[n for n in ("i", "j", "n", "b") if True][: (2 if mask else 3)]) if q else None),
+                             shrink=(window(t, tier, 1 if not mask else 0, wide=(["i"] if t not in ("t_macro_sub", "t_blocks") else [])) if q else None),
                              functions=["Builder.build", "Builder.build_array_item", "Builder.add_to_context", "Builder.get_gate_definition", "AbstractGate.call",
                                         "Parameter.validate", "fill_in_let", "expand_macros", "GateReplacer.visit_NamedQubit", "run_jaqal_circuit"],
                              note=f"{t} over the native gate set, override mask {mask}: if the reference finds a reference that cannot be honoured, some stage up to "
